@@ -39,6 +39,12 @@ SUMMARY = {
     "C14-2": ("transfer matrix filled only in a band (`j < min(i/(q+1)+1, naxes)`)", "convolution where a new spline overlaps old splines outside the band", "missed at first; UW-4 (perfect fill / apply nests) added"),
     "C18-2": ("`if(periods)` guards removed from `permuteDimensions`", "handle populated by fit (periods null), then permute: crash", "missed at first; NL-1 added (which also found D27, D28)"),
     "C19-2": ("knot term of `estimateMemory` moved before `nknots *= n`", "any convolution declared to estimateMemory", "missed at first; SM-2 adjust-before-count added"),
+    "C11-3": ("per-job reset `trial->nH1 = 0` (and the list allocation) hoisted out of the worker's job loop", "fewer workers than trial steps (OMP_NUM_THREADS=1) and a line search whose first steps fail", "missed at first; MT-9 (job accumulators reset inside the loop) added"),
+    "C13-3": ("`divided_diffs` recursion stopped at `porder == 1` (closed form) instead of `porder == 0`", "non-zero smoothing with penalty order 0: unbounded recursion, stack overflow", "missed at first; RT-1 (well-founded recursion) added"),
+    "C17-3": ("loop forcing `nd->ranges[dim] = naxes[dim]` removed from `grideval`", "coefficient array whose top slab(s) along a dimension are all zero", "caught (GE-1)"),
+    "C18-3": ("`read_fits_mem`: occupied check moved after `fits_open_memfile`, before the closing guard", "failed read from memory into an occupied handle: leaks a cfitsio handle each time", "missed at first; RH-1 (opened handle never abandoned) added"),
+    "C19-3": ("`readOrder` stores `ORDERn` into `order[ndim-1-n]`", "mixed, non-palindromic orders and a convolution in the lower-order dimension", "missed at first; FS-8 (name index = data index) added"),
+    "C20-3": ("`fit`'s cleanup guard moved below the allocation block", "allocator failure during fit's setup: half-built non-empty table", "caught (TS-2)"),
     "C20-2": ("`extents[0] = nullptr` removed from the reader", "allocation failure at the 7th request with a non-zero-filling allocator", "caught"),
 }
 try:
